@@ -163,8 +163,13 @@ def run_trace(case, seed):
                 for k, _m, hi in ents:
                     t2.add(k, Meta(size=rng.randrange(1000), isexec=rng.random() < 0.5, nfiles=None, mtime=rng.random()), hi)
                 t2.digest()
+                same = t2.oid == obj.oid
+                # ... nor does it matter whether the stored listing is asked to carry the metadata along: the identifier is that
+                # of the (path, digest) pairs
+                t2.digest(with_meta=True)
+                same = same and t2.oid == obj.oid
                 events.append({"act": {"op": "Perm"}, "res": {"entries": lst, "listing": d.listing_of(t2),
-                                                              "oid_canon": bool(d.canon_ok(t2)), "same_as_first": t2.oid == obj.oid}})
+                                                              "oid_canon": bool(d.canon_ok(t2)), "same_as_first": same}})
             elif op == "UpdateMeta":
                 # the directory as it is NOW, built cold, lends its metadata to the tree built last
                 from dvc_data.hashfile.tree import update_meta
